@@ -46,7 +46,7 @@ CLAIMS = {
             "worker's inbox or the marker in its queue (C16_sys_load_nothing_behind_the_shutdown_marker; wire-delta facts per scheduler call and per loop iteration, Sched/LoadWd); "
             "WHOLE SYSTEM, hypothesis-free, over arbitrary executions of the composed system (all threads that write to the wire, incl. a receiver thread's own shutdown() after an undecodable message): "
             "at most one shutdown signal per worker in ALL SIX modes (C16_sys_one_shutdown_signal_all_modes), and nothing at all addressed to a worker after its shutdown signal in the modes each, worksteal, "
-            "loadscope, loadfile, loadgroup (C16_sys_nothing_after_the_shutdown_signal: every send of these schedulers is guarded by shutting_down and sends change no flag); load's first schedule() sends "
+            "loadscope, loadfile, loadgroup (C16_sys_nothing_after_the_shutdown_signal: every send of these schedulers is guarded by shutting_down and sends change no flag), and AT THE WORKER in these modes: no test behind the shutdown marker in its queue, nothing after a shutdown command in its inbox, nothing arrives once the marker is queued (C16_sys_worker_queue_nothing_behind_shutdown); load's first schedule() sends "
             "without looking at the flags, there the controller-level theorem carries the hypothesis",
             "contract invariants NoAfter/SentSync/Nodup/Bounded preserved by every act + refinement, lifted to the DSession loop by induction over events (Lean 4) ; differential correspondence of all six schedulers with wire monitors"),
     "C15": ("Lean theorems: mark_test_pending inserts at the front of the pool; per index #completed + #crash-reported = 1 + #re-queued when the ledger is empty; "
